@@ -135,10 +135,11 @@ Lemma attempt_spec : forall rq arg partial ntypes cs t,
 Proof.
   intros rq arg partial ntypes cs t H. unfold attempt in H. destruct (draw cs) as (c, cs1).
   destruct (get_node partial ntypes c) as [nm|]; [|discriminate].
-  unfold depth_bound. destruct (1 <? max_depth rq).
-  - destruct (growth (S (eff_depth rq arg)) rq (eff_depth rq arg) partial ntypes 0 cs1) as [(kids, cs2)|] eqn:E; [|discriminate].
+  unfold depth_bound. destruct (1 <? eff_depth rq arg) eqn:Ed.
+  - apply Nat.ltb_lt in Ed.
+    destruct (growth (S (eff_depth rq arg)) rq (eff_depth rq arg) partial ntypes 0 cs1) as [(kids, cs2)|] eqn:E; [|discriminate].
     inversion H; subst. apply growth_spec in E. destruct E as (Hhi & Hlo & Hk). split.
-    + replace (Nat.max (eff_depth rq arg) 2) with (S (dmax (eff_depth rq arg) 1)) by (unfold dmax; lia).
+    + replace (Nat.max (eff_depth rq arg) 1) with (S (dmax (eff_depth rq arg) 1)) by (unfold dmax; lia).
       apply tdepth_node. intros k Hin. apply Hk. auto.
     + apply node_ok_intro; auto. intros k Hin. apply Hk. auto.
   - inversion H; subst. split; [simpl; lia|apply node_ok_leaf].
@@ -149,7 +150,7 @@ Lemma attempt_raise : forall rq md partial ntypes cs e,
 Proof.
   intros rq md partial ntypes cs e H. unfold attempt in H. destruct (draw cs) as (c, cs1).
   destruct (get_node partial ntypes c) as [nm|]; [|discriminate].
-  destruct (1 <? max_depth rq); [|discriminate].
+  destruct (1 <? md); [|discriminate].
   destruct (growth (S md) rq md partial ntypes 0 cs1) as [(kids, cs2)|e'] eqn:E; [discriminate|].
   inversion H; subst. apply growth_raise in E; auto; lia.
 Qed.
@@ -194,19 +195,16 @@ Proof.
   destruct H as (H1 & H2 & (H3 & H3') & H4). repeat split; auto; lia.
 Qed.
 
-(* without an override (or with an override of at least 2) the bound is the maximum depth *)
+(* the bound is the effective max_depth: requirements.max_depth without an override, the override
+   argument when it is at least 1 (an override of 0 is falsy and falls back) *)
 Lemma depth_bound_plain : forall rq, 1 <= max_depth rq -> depth_bound rq None = max_depth rq.
-Proof.
-  intros rq H. unfold depth_bound, eff_depth. destruct (1 <? max_depth rq) eqn:E.
-  - apply Nat.ltb_lt in E. lia.
-  - apply Nat.ltb_ge in E. lia.
-Qed.
+Proof. intros rq H. unfold depth_bound, eff_depth. lia. Qed.
 
-Lemma depth_bound_override : forall rq m, 2 <= m -> 1 < max_depth rq -> depth_bound rq (Some m) = m.
-Proof.
-  intros rq m H Hd. unfold depth_bound, eff_depth. apply Nat.ltb_lt in Hd. rewrite Hd.
-  destruct m; [lia|]. lia.
-Qed.
+Lemma depth_bound_override : forall rq m, 1 <= m -> depth_bound rq (Some m) = m.
+Proof. intros rq m H. unfold depth_bound, eff_depth. destruct m; lia. Qed.
+
+Lemma depth_bound_zero_override : forall rq, depth_bound rq (Some 0) = depth_bound rq None.
+Proof. reflexivity. Qed.
 
 (* ------------------------------------------------------------------ (5) initial population *)
 Section Population.
